@@ -115,7 +115,8 @@ func accept(w http.ResponseWriter, r *http.Request, opts *AcceptOptions) (_ *Con
 	w.Header().Set("Upgrade", "websocket")
 	w.Header().Set("Connection", "Upgrade")
 
-	key := r.Header.Get("Sec-WebSocket-Key")
+	// The key is hashed in the form verifyClientRequest validated it in.
+	key := trimOWS(r.Header.Get("Sec-WebSocket-Key"))
 	w.Header().Set("Sec-WebSocket-Accept", secWebSocketAccept(key))
 
 	subproto := selectSubprotocol(r, opts.Subprotocols)
